@@ -47,6 +47,7 @@ func registerTimeModels() {
 		return m.tt.Const(64, uint64(m.clock))
 	}
 	models["time.runtimeNow"] = models["time.now"]
+	models["time.runtimeIsBubbled"] = func(m *Machine, _ *frame, _ *ssa.Function, a []value) value { return m.tt.Bool(false) }
 	models["time.Sleep"] = func(m *Machine, _ *frame, _ *ssa.Function, a []value) value {
 		d := int64(m.path.Concretise(a[0].(*Term), "Sleep"))
 		if d <= 0 {
